@@ -38,7 +38,7 @@ inductive Val where
   deriving Inhabited
 
 inductive Err where
-  | typeError | keyError | indexError | queueEmpty | attributeError | valueError | structError | overflowError | adbTimeout | invalidCommand | invalidChecksum | unsupported
+  | typeError | keyError | indexError | queueEmpty | attributeError | valueError | structError | overflowError | adbTimeout | invalidCommand | invalidChecksum | adbCommandFailure | invalidResponse | unsupported
   deriving DecidableEq, Repr, Inhabited
 
 abbrev M := Except Err
@@ -294,6 +294,18 @@ def sliceTo (x n : Val) : M Val := do
   match x with
   | .bytes b => pure (.bytes (b.take k))
   | .bytearray b => pure (.bytearray (b.take k))
+  | _ => throw .unsupported
+/-- `x[-k]` for a literal `k ≥ 1` on a tuple / list (the k-th element from the end) -/
+def getItemNeg (c : Val) (k : Nat) : M Val :=
+  match c with
+  | .tuple l | .list l => if 1 ≤ k ∧ k ≤ l.length then (match l[l.length - k]? with | some v => pure v | Option.none => throw .indexError) else throw .indexError
+  | _ => throw .unsupported
+
+/-- `x[lo:len(x)-k]` for literal `lo ≥ 0`, `k ≥ 0` on a tuple / list (`x[1:]` is `k = 0`, `x[1:-1]` is `k = 1`) -/
+def sliceTL (c : Val) (lo k : Nat) : M Val :=
+  match c with
+  | .tuple l => pure (.tuple ((l.drop lo).take (l.length - k - lo)))
+  | .list l => pure (.list ((l.drop lo).take (l.length - k - lo)))
   | _ => throw .unsupported
 def bitand (a b : Val) : M Val := do pure (.int (((← natOf a) &&& (← natOf b) : Nat)))
 def bitxor (a b : Val) : M Val := do pure (.int (((← natOf a) ^^^ (← natOf b) : Nat)))
